@@ -697,36 +697,36 @@ func c53Ops(maxH int) []c53Op {
 	add := func(name string, f func(w *c53World) bool) { ops = append(ops, c53Op{name, f}) }
 	room := func(w *c53World) bool { return len(w.h) < w.maxH }
 
-	add("h+=NewBuffer(1500/2048)", func(w *c53World) bool {
+	add("h+=NewBuffer(1401/2048)", func(w *c53World) bool {
 		if !room(w) {
 			return true
 		}
-		data := w.pool.arena.alloc(1500, 2048)
-		data = data[:1500:2048]
-		copy(data, w.pattern(1500))
-		c53Fill(data[1500:2048], c53Dirty)
+		data := w.pool.arena.alloc(1401, 2048)
+		data = data[:1401:2048]
+		copy(data, w.pattern(1401))
+		c53Fill(data[1401:2048], c53Dirty)
 		a := w.pool.register(data, false)
 		root := w.newRoot(a, 0, data)
 		b := NewBuffer(&data, w.pool)
 		w.addHandle(w.adopt(b, root.data, root, 0, nil))
 		return false
 	})
-	add("h+=Copy(1300)", func(w *c53World) bool {
+	add("h+=Copy(1400)", func(w *c53World) bool {
 		if !room(w) {
 			return true
 		}
-		src := w.pattern(1300)
+		src := w.pattern(1400)
 		b := Copy(src, w.pool)
 		w.addHandle(w.adopt(b, src, nil, 0, nil))
 		return false
 	})
-	add("h+=NewBuffer(600/1024,unpooled)", func(w *c53World) bool {
+	add("h+=NewBuffer(699/1024,unpooled)", func(w *c53World) bool {
 		if !room(w) {
 			return true
 		}
-		data := w.pool.arena.alloc(600, 1024)
-		data = data[:600:1024]
-		copy(data, w.pattern(600))
+		data := w.pool.arena.alloc(699, 1024)
+		data = data[:699:1024]
+		copy(data, w.pattern(699))
 		a := w.pool.register(data, false)
 		root := w.newRoot(a, 0, data)
 		b := NewBuffer(&data, w.pool)
@@ -792,7 +792,7 @@ func c53Ops(maxH int) []c53Op {
 		i := i
 		for _, variant := range []string{"0", "mid", "len"} {
 			variant := variant
-			add(fmt.Sprintf("h%d,h+=SplitUnsafe(h%d,%s)", i, i, variant), func(w *c53World) bool {
+			add(fmt.Sprintf("h%d/h+=SplitUnsafe(h%d:%s)", i, i, variant), func(w *c53World) bool {
 				if i >= len(w.h) || !room(w) {
 					return true
 				}
@@ -830,7 +830,7 @@ func c53Ops(maxH int) []c53Op {
 		i := i
 		for _, variant := range []string{"100", "all"} {
 			variant := variant
-			add(fmt.Sprintf("h%d=ReadUnsafe(%s,h%d)", i, variant, i), func(w *c53World) bool {
+			add(fmt.Sprintf("h%d=ReadUnsafe(%s:h%d)", i, variant, i), func(w *c53World) bool {
 				if i >= len(w.h) {
 					return true
 				}
@@ -1183,7 +1183,7 @@ func c53Core(ops []c53Op) []c53Op {
 	keep := func(n string) bool {
 		switch {
 		case strings.Contains(n, "unpooled"), strings.Contains(n, "Slice(full)"), strings.Contains(n, "Slice(empty)"),
-			strings.Contains(n, ",0)"), strings.Contains(n, ",len)"), strings.Contains(n, "ReadUnsafe(all"),
+			strings.Contains(n, ":0)"), strings.Contains(n, ":len)"), strings.Contains(n, "ReadUnsafe(all"),
 			strings.Contains(n, "hLast"), strings.Contains(n, "(1)"), strings.Contains(n, "(5000)"),
 			strings.Contains(n, "Reset"), strings.Contains(n, "ReadByte"), strings.Contains(n, "Discard"):
 			return false
